@@ -192,6 +192,7 @@ func (x *Exec) model(st *State, fr *Frame, dst ssa.Value, callee *ssa.Function, 
 		r := x.refOf(args[0])
 		wg := st.ghostArr("wg", SInt)
 		x.siteAsserts(st, fr, "wgdone:"+x.argPath(fr, 0), pos)
+		x.givesAt(st, fr, "wgdone:"+x.argPath(fr, 0), pos)
 		k := x.site(st, "wgdone")
 		mine := st.ghostArr("wgmine", SInt)
 		// Done() needs a token this thread owns: otherwise the counter may go negative (panic)
@@ -204,6 +205,7 @@ func (x *Exec) model(st *State, fr *Frame, dst ssa.Value, callee *ssa.Function, 
 		x.siteAsserts(st, fr, "wgwait:"+x.argPath(fr, 0), pos)
 		x.interfere(st, "WaitGroup.Wait")
 		st.Assume(Eq(Select(st.ghostArr("wg", SInt), r), IntLit(0)))
+		x.joinAt(st, fr, r, x.argPath(fr, 0), pos)
 		st.Trace = append(st.Trace, "wg.Wait returns")
 	case "encoding/json.Marshal":
 		return x.jsonMarshal(st, fr, dst, args, pos)
@@ -943,6 +945,17 @@ func (x *Exec) interfere(st *State, why string) {
 			}
 		}
 	}
+	// ghost marks are monotone: other goroutines may add pairs, never remove one
+	for _, n := range st.heapNames() {
+		if strings.HasPrefix(n, "G$mark$") {
+			srt := ArrSort(SInt, ArrSort(SInt, SBool))
+			om := st.Heap[n]
+			nm := Fresh("if$"+n, srt)
+			a, b := BoundVar("a", SInt), BoundVar("b", SInt)
+			st.Assume(Forall([]*Term{a, b}, Implies(Select(Select(om, a), b), Select(Select(nm, a), b))))
+			st.Heap[n] = nm
+		}
+	}
 	x.havocEscaped(st)
 	st.Trace = append(st.Trace, "interference@"+why)
 	x.assumeStrong(st)
@@ -1058,6 +1071,151 @@ func (x *Exec) checkWgGuarantee(st *State, wgv *Val, before map[string]*Term, wh
 			continue
 		}
 		x.oblige(st, "monitor", fmt.Sprintf("monitor:guarantee:%s@wg%s:%s#%d", rc.Label, what, wgv.FP.Path[0], k), x.V.evalBool(env, rc.E), pos, rc.Text)
+	}
+}
+
+// ---- facts handed from goroutines to the one that joins them through a WaitGroup ----
+
+// givesAt: `gives @SITE: FACT` in the contract of a goroutine: at the site (its WaitGroup.Done) FACT holds, and it
+// keeps holding whatever other goroutines do afterwards (stability: assumed in a copy of the state with nothing
+// held and nothing thread-local, one interference step applied, proved again).
+func (x *Exec) givesAt(st *State, fr *Frame, site string, pos token.Pos) {
+	if x.FC == nil || len(st.Frames) == 0 {
+		return
+	}
+	for _, cl := range x.FC.Of("gives") {
+		if cl.Site != site {
+			continue
+		}
+		env := x.envAt(st, st.Frames[0])
+		for n, p := range x.Entry.Params {
+			env.Vars[n] = p
+		}
+		g := x.V.evalBool(env, cl.E)
+		k := x.site(st, "gives:"+site)
+		x.oblige(st, "assert", fmt.Sprintf("gives:%s@%s#%d", cl.Label, site, k), g, pos, cl.Text)
+		s2 := st.Clone()
+		s2.Assume(g)
+		s2.Held = map[string]*Held{}
+		s2.FreshRefs = map[string]bool{}
+		s2.FreshList = nil
+		s2.Owned = nil
+		saved := x.V.entryHeldList
+		savedHeld := x.V.entryHeld
+		x.V.entryHeldList, x.V.entryHeld = nil, map[string]bool{}
+		x.interfere(s2, "stability of a handed-over fact")
+		x.V.entryHeldList, x.V.entryHeld = saved, savedHeld
+		env2 := x.envAt(s2, s2.Frames[0])
+		for n, p := range x.Entry.Params {
+			env2.Vars[n] = p
+		}
+		x.oblige(s2, "assert", fmt.Sprintf("gives-stable:%s@%s#%d", cl.Label, site, k), x.V.evalBool(env2, cl.E), pos, cl.Text)
+	}
+}
+
+// joinAt: `ghost joins W: F` in the contract of the function that waits: W is a WaitGroup of its own making, every
+// token it added went to a goroutine running F (which returns it at its `gives @wgdone` site), so after W.Wait() the
+// facts F gives hold for every goroutine F this function started.
+func (x *Exec) joinAt(st *State, fr *Frame, wref *Term, ap string, pos token.Pos) {
+	if x.FC == nil || len(st.Frames) != 1 {
+		return
+	}
+	for _, cl := range x.FC.Of("ghost") {
+		if !strings.HasPrefix(cl.Text, "joins "+ap+":") {
+			continue
+		}
+		fname := strings.TrimSpace(strings.TrimPrefix(cl.Text, "joins "+ap+":"))
+		fn := x.V.P.Funcs[x.Fn.Pkg.Pkg.Name()+"."+fname]
+		if fn == nil {
+			unsupportedf("ghost joins: unknown function %s", fname)
+		}
+		ffc := x.V.C.Funcs[x.V.P.FuncKey(fn)]
+		if ffc == nil {
+			unsupportedf("ghost joins: %s has no contract", fname)
+		}
+		k := x.site(st, "join:"+ap)
+		// F is a function literal of this function that captures this very variable and takes its token from it, and
+		// the variable is assigned once: so the tokens F goroutines return are tokens of this WaitGroup
+		okStatic := fn.Parent() == x.Fn
+		hasFV := false
+		for _, fv := range fn.FreeVars {
+			if fv.Name() == ap {
+				hasFV = true
+			}
+		}
+		consumes := false
+		for _, oc := range ffc.Of("ghost") {
+			if oc.Text == "consumes-wg "+ap {
+				consumes = true
+			}
+		}
+		stores := 0
+		for _, b := range x.Fn.Blocks {
+			for _, in := range b.Instrs {
+				if stI, ok := in.(*ssa.Store); ok {
+					if al, ok := stI.Addr.(*ssa.Alloc); ok && al.Comment == ap {
+						stores++
+					}
+				}
+			}
+		}
+		if !okStatic || !hasFV || !consumes || stores > 1 {
+			unsupportedf("ghost joins %s: %s must be a function literal of this function that captures %s (assigned once) and declares `ghost consumes-wg %s`", ap, fname, ap, ap)
+		}
+		// the WaitGroup is of this function's own making (nobody else adds to it) ...
+		if st.FreshTypes[wref.Op] == nil {
+			x.failHard(st, "assert", fmt.Sprintf("join:own-waitgroup@wgwait:%s#%d", ap, k), pos, "ghost joins needs a WaitGroup allocated in this function")
+			continue
+		}
+		// ... this thread holds none of its tokens any more ...
+		x.oblige(st, "assert", fmt.Sprintf("join:no-token-kept@wgwait:%s#%d", ap, k), Eq(Select(st.ghostArr("wgmine", SInt), wref), IntLit(0)), pos, cl.Text)
+		// ... and tokens are handed over only to goroutines running F (checked over the go statements of this function)
+		for _, b := range x.Fn.Blocks {
+			for _, in := range b.Instrs {
+				g, ok := in.(*ssa.Go)
+				if !ok {
+					continue
+				}
+				sc := g.Call.StaticCallee()
+				if sc == nil || sc == fn {
+					continue
+				}
+				if ofc := x.V.C.Funcs[x.V.P.FuncKey(sc)]; ofc != nil {
+					for _, oc := range ofc.Of("ghost") {
+						if strings.HasPrefix(oc.Text, "consumes-wg ") {
+							unsupportedf("ghost joins %s: %s also takes WaitGroup tokens; list it in a joins clause of its own WaitGroup or not at all", ap, sc)
+						}
+					}
+				}
+			}
+		}
+		n0 := x.Entry.OldHeap["G$spawned$"+fname]
+		if n0 == nil {
+			n0 = Const("G$spawned$"+fname+"@0", SInt)
+		}
+		n1 := st.ghostInt("spawned$" + fname)
+		kv := BoundVar("k", SInt)
+		env := &Env{V: x.V, X: x, St: st, Vars: map[string]*Val{}, Pkg: fn.Pkg.Pkg, Epoch: st.Epoch}
+		for i, p := range fn.Params {
+			if shapeOf(p.Type()) == shLeaf {
+				fam := fmt.Sprintf("G$spawnarg$%s$%d", fname, i)
+				env.Vars[p.Name()] = &Val{T: p.Type(), Term: Select(st.heapGet(fam, ArrSort(SInt, leafSort(p.Type()))), kv)}
+			}
+		}
+		for _, fv := range fn.FreeVars {
+			ft := pointee(fv.Type())
+			if ft != nil && shapeOf(ft) == shLeaf {
+				fam := fmt.Sprintf("G$spawnfv$%s$%s", fname, fv.Name())
+				env.Vars[fv.Name()] = &Val{T: ft, Term: Select(st.heapGet(fam, ArrSort(SInt, leafSort(ft))), kv)}
+			}
+		}
+		for _, gc := range ffc.Of("gives") {
+			if !strings.HasPrefix(gc.Site, "wgdone:") {
+				continue
+			}
+			st.Assume(Forall([]*Term{kv}, Implies(And(Le(n0, kv), Lt(kv, n1)), x.V.evalBool(env, gc.E))))
+			x.note("join rule: after " + ap + ".Wait() the fact `" + gc.Text + "` given by every goroutine " + fname + " started here holds (it was proved stable at their WaitGroup.Done)")
+		}
 	}
 }
 
